@@ -56,7 +56,10 @@ Other(a) == First(Accounts \ {a})
 (* ------------------------------------------------------------------------------------ *)
 (* State                                                                                *)
 (* ------------------------------------------------------------------------------------ *)
-NoInv == [st |-> "unused", type |-> "-", perm |-> "none"]
+(* an invite carries, independently: its type, the Permissions field and whether an EncryptedReadKey is   *)
+(* present - the validator looks at the last two only for anyone-can-join invites, a hand-made            *)
+(* request-to-join invite may carry any of them                                                         *)
+NoInv == [st |-> "unused", type |-> "-", perm |-> "none", key |-> FALSE]
 
 ActiveAcc(x) == {t \in Accounts : x.perm[t] # "none"}
 Owners(x) == {t \in Accounts : x.perm[t] = "owner"}
@@ -91,7 +94,7 @@ RotV   == IF Honest THEN {"exact"} ELSE {"exact", "minus", "plus", "swap", "noin
 JoinV  == IF Honest THEN {"ok"} ELSE {"ok", "badident", "badsig"}
 IJoinV == IF Honest THEN {"ok"} ELSE {"ok", "badident", "badsig", "nokey"}
 AccV   == IF Honest THEN {"match"} ELSE {"match", "mismatch"}
-InvV   == IF Honest THEN {"req", "any"} ELSE {"req", "any", "anynokey"}
+InvV   == IF Honest THEN {"req", "any"} ELSE {"req", "reqkey", "any", "anynokey"}   \* type x {without, with} read key ciphertext
 
 Contents ==
        {C("PermChange",    t,   p,   "-", "-", "-") : t \in Accounts, p \in Perms}
@@ -284,10 +287,11 @@ StepInvite(x, a, c, ctx) ==               \* ValidateInvite / applyInvite
              ELSE IF c.v = "anynokey" THEN "IN.nokey/BadKey"
              ELSE IF ctx.slot = "-" THEN "IN.bound/OutOfModel"          \* model bound, not a code rule
              ELSE "ok"
-      \* the Permissions field of a request-to-join invite is stored but never read: abstracted to "none"
-      y == [x EXCEPT !.inv[ctx.slot] = [st |-> "live", type |-> IF any THEN "any" ELSE "req", perm |-> IF any THEN c.p ELSE "none"]]
+      hasKey == c.v \in {"any", "reqkey"}
+      \* applyInvite stores type, Permissions and the ciphertext as they come
+      y == [x EXCEPT !.inv[ctx.slot] = [st |-> "live", type |-> IF any THEN "any" ELSE "req", perm |-> c.p, key |-> hasKey]]
   IN R3(why, IF why = "ok"
-             THEN (IF any THEN [y EXCEPT !.cf[Len(x.cf)] = @ \cup {ctx.slot}] ELSE y)   \* invite carries the current key
+             THEN (IF hasKey THEN [y EXCEPT !.cf[Len(x.cf)] = @ \cup {ctx.slot}, !.held[ctx.slot] = Len(x.cf)] ELSE y)   \* invite carries the current key
              ELSE x, IF why = "ok" THEN [ctx EXCEPT !.fi = TRUE] ELSE ctx)
 
 StepInviteChange(x, a, c, ctx) ==         \* ValidateInviteChange / applyInviteChange
@@ -307,7 +311,7 @@ StepInviteRevoke(x, a, c, ctx) ==         \* ValidateInviteRevoke / applyInviteR
       why == IF ~Mgr(x.perm[a]) THEN "IR.author/Insuff"
              ELSE IF ~live THEN "IR.noinvite/NoInv"
              ELSE "ok"
-  IN R3(why, IF why = "ok" THEN [x EXCEPT !.inv[c.i] = [st |-> "revoked", type |-> "-", perm |-> "none"]] ELSE x, ctx)
+  IN R3(why, IF why = "ok" THEN [x EXCEPT !.inv[c.i] = [st |-> "revoked", type |-> "-", perm |-> "none", key |-> FALSE]] ELSE x, ctx)
 
 StepOptions(x, a, c, ctx) ==              \* ValidateSpaceOptionsChange / applySpaceOptionsChange
   LET why == IF x.perm[a] # "owner" THEN "OP.author/Insuff" ELSE "ok"
@@ -405,7 +409,7 @@ CandK(x, a, k) ==
     [] k = "RequestDecline" ->
          IF Mgr(pa) THEN {C("RequestDecline", "-", "-", "-", q, "-") : q \in Pending(x)} ELSE {}
     [] k = "Invite" ->
-         IF Mgr(pa) THEN {C("Invite", "-", "none", "-", "-", "req")}
+         IF Mgr(pa) THEN {C("Invite", "-", p, "-", "-", v) : p \in Perms, v \in {"req", "reqkey"} \cap InvV}
                          \cup {C("Invite", "-", p, "-", "-", "any") : p \in {"reader", "writer", "admin"}} ELSE {}
     [] k = "InviteChange" ->
          IF Mgr(pa) THEN {C("InviteChange", "-", p, i, "-", "-") : p \in {"reader", "writer", "admin"}, i \in LiveAny(x)} ELSE {}
@@ -464,7 +468,12 @@ NextB == CodeStepB
 Spec  == Init /\ [][Next]_vars
 SpecB == Init /\ [][NextB]_vars
 
-DepthBound == TLCGet("level") <= MaxDepth + 1   \* evaluated for a successor: level of the successor
+(* Ill-matched request-to-join invites: all 12 (permission x key) variants are generated and checked as     *)
+(* transitions / successor states; only two are explored further - the one the client builder makes       *)
+(* (none, no key) and the most hostile one (Admin, with key) - since the validator never reads the fields. *)
+ReqInvCanon(x) == \A i \in InvSet : (x.inv[i].st = "live" /\ x.inv[i].type = "req") =>
+                     (<<x.inv[i].perm, x.inv[i].key>> \in {<<"none", FALSE>>, <<"admin", TRUE>>})
+DepthBound == ReqInvCanon(s) /\ TLCGet("level") <= MaxDepth + 1   \* evaluated for a successor: level of the successor
 
 (* ------------------------------------------------------------------------------------ *)
 (* C04: privilege rules, as predicates over one accepted content step x --(a, c)--> y   *)
@@ -476,7 +485,7 @@ OneOwnerIn(x) == Cardinality(Owners(x)) = 1
 AdminOnlyByOwner(x, a, c, y) ==
   /\ \A t \in Accounts : ((x.perm[t] = "admin") # (y.perm[t] = "admin")) =>
         \/ x.perm[a] = "owner"
-        \/ (t = a /\ x.perm[a] = "none" /\ c.k = "InviteJoin")
+        \/ (t = a /\ x.perm[a] = "none" /\ c.k = "InviteJoin" /\ c.i \in LiveAny(x) /\ x.inv[c.i].perm = "admin")
         \/ (t = a /\ x.perm[a] = "admin")                         \* an admin giving up its own role
   /\ \A i \in InvSet : (y.inv[i].st = "live" /\ y.inv[i].type = "any" /\ y.inv[i].perm = "admin"
                         /\ ~(x.inv[i].st = "live" /\ x.inv[i].type = "any" /\ x.inv[i].perm = "admin"))
